@@ -20,8 +20,9 @@ Wiring (props/c19.py):
     c19_wied.cases() yields \`im_ker_trace <rows> <p>\` requests (new harness op in harness/src/ops_wied.rs, answer \`<v0>|<answer of
     im_ker_p256>\`, k=False, o=False; optional oracle: \`if case.op == 'im_ker_trace': return c19_wied.oracle_ker(case, ans)\` and set o=True) and followup() turns each answer into the driver request
     \`im_ker_model <rows> <p> <v0>\` with the implementation's answer as the expected one.
-    Measured: the im_ker_p256 matrices of c19.cases (quick seeds 1-3, 240 requests) + the panic / None / width classes generated here:
-    all agree in both profiles.
+    Measured: the im_ker_p256 matrices of c19.cases as traces (quick seeds 1-3: 240/240; thorough seed 1: 794/794, driver 1.5 s) and the
+    panic / None / width classes generated here (63/63): all agree in both profiles; a run through vlib.pipeline with followup wired
+    (temporary module): 176/176 K ok.
   * LEAN += LEAN; THEOREMS += THEOREMS; MODELLED/UNMODELLED += ...; copy the #print axioms lines of
     lean/Ymq/Audit/C19Wied.lean into lean/Ymq/Audit/C19.lean.
 """
